@@ -11,6 +11,15 @@ package verifsim
 // then tries again - and if every unfinished task is waiting like that, the
 // run is a deadlock.  The operations themselves are the real ones, so the
 // race detector sees the happens-before edges channels give.
+//
+// Exactness: a polled operation succeeds when the real non-blocking operation
+// would - buffer space / buffered data / a closed channel.  That is exact for
+// buffered channels (semaphores, queues) and for waiting on a channel to be
+// closed (context.Done).  It is NOT exact for a rendezvous on an unbuffered
+// channel between two polling parties (neither ever blocks in the runtime, so
+// neither finds the other), nor in general for select.  A deadlock in which
+// such a wait takes part is therefore reported as uncertain, and the checks
+// treat it as "the simulator cannot tell", never as a violation.
 
 // ChanSend is `ch <- v`.
 //
@@ -29,7 +38,7 @@ func ChanSend[T any](ch chan<- T, v T) {
 			return
 		default:
 		}
-		s.chanWait()
+		s.chanWait(cap(ch) > 0)
 	}
 }
 
@@ -58,7 +67,7 @@ func ChanRecv2[T any](ch <-chan T) (T, bool) {
 			return v, ok
 		default:
 		}
-		s.chanWait()
+		s.chanWait(cap(ch) > 0)
 	}
 }
 
@@ -83,7 +92,7 @@ func SelectStart() {
 //go:norace
 func SelectWait() {
 	if s := active; s != nil && s.cur >= 0 {
-		s.chanWait()
+		s.chanWait(false)
 		s.yield(YChan, 2)
 		return
 	}
